@@ -49,6 +49,7 @@ func randCase(c *Ctx, s string) string {
 // registrations over the built-in 0..0xffff symbol range, so the latest-registration rule matters
 var c13CfgOps = []cfgOp{{k: "D", lo: 0x400, hi: 0x4ff, x: "w"}, {k: "D", lo: 0x370, hi: 0x3ff, x: "w"}}
 var c13Sym4Ops = []cfgOp{{k: "Y", v: []rune("<!--"), typ: tokenizers.Symbol}, {k: "Y", v: []rune("=:=:"), typ: tokenizers.Symbol}, {k: "Y", v: []rune("->>>>"), typ: tokenizers.Symbol}}
+var c13FoldOps = []cfgOp{{k: "W", lo: 0x400, hi: 0x4ff, x: "0"}, {k: "W", lo: 0x370, hi: 0x3ff, x: "1"}, {k: "W", lo: 0x500, hi: 0x52f, x: "1"}}
 var c13SymOps = []cfgOp{{k: "Y", v: []rune("=:="), typ: tokenizers.Symbol}, {k: "Y", v: []rune("..."), typ: tokenizers.Symbol}}
 var wordStartCfg = []rune("abzAZxy_éÀÿЖцλΔ")
 
@@ -234,6 +235,10 @@ func runLexCase(c *Ctx, kind string, lexs []lexeme) {
 	if kind == "E" {
 		op = tokcLine("e", 0, c13CfgOps, input)
 		ts, st = tokenizeCfg("e", 0, c13CfgOps, input)
+	} else if kind == "E3" {
+		// word characters re-configured in three steps: a block disabled, an adjacent block (re-)enabled afterwards
+		op = tokcLine("e", 0, c13FoldOps, input)
+		ts, st = tokenizeCfg("e", 0, c13FoldOps, input)
 	} else if kind == "E2" {
 		// the same configuration applied to a tokenizer that was USED before (on a text with the characters concerned)
 		op = tokcLine("e", 0, c13CfgOps, input)
@@ -364,6 +369,9 @@ func propC13(c *Ctx) {
 		runLexCase(c, k, []lexeme{{"=", S}, {":", S}})
 		runLexCase(c, k, []lexeme{{"=:=", S}, {"=", S}, {":", S}})
 	}
+	runLexCase(c, "E3", []lexeme{{"total", W}, {"Ж", S}, {"xλ1", W}})
+	runLexCase(c, "E3", []lexeme{{"aλ", W}, {" ", Sp}, {"bЖ"[:1], W}, {"Ж", S}, {"ц", S}, {" ", Sp}, {"cԀ", W}})
+	runLexCase(c, "E3", []lexeme{{"xλ", W}, {"Ѐ", S}, {"y", W}})
 	I := tokenizers.Integer
 	for _, k := range []string{"Y4", "Z4"} {
 		runLexCase(c, k, []lexeme{{"a", W}, {" ", Sp}, {"<!--", S}, {" ", Sp}, {"b", W}})
